@@ -41,6 +41,22 @@ func isFreshBase(v ssa.Value) bool {
 	switch x := v.(type) {
 	case *ssa.Alloc:
 		return true
+	case *ssa.UnOp:
+		// load of a local variable cell that only ever holds fresh objects
+		// (a captured `p := &T{...}`); callers additionally require that the
+		// access is not reachable from a `go` statement (see prePublication).
+		if cell, ok := x.X.(*ssa.Alloc); ok && x.Op == token.MUL {
+			n := 0
+			for _, r := range refs(cell) {
+				if st, ok := r.(*ssa.Store); ok && st.Addr == cell {
+					if a, ok := st.Val.(*ssa.Alloc); !ok || !a.Heap {
+						return false
+					}
+					n++
+				}
+			}
+			return n > 0
+		}
 	case *ssa.FieldAddr:
 		return isFreshBase(x.X)
 	case *ssa.MakeInterface:
@@ -72,6 +88,9 @@ func FieldAccesses(fn *ssa.Function, want func(FieldID) bool) []Access {
 			return false
 		}
 		seen[key] = true
+		if fresh && !prePublication(in) {
+			fresh = false
+		}
 		out = append(out, Access{Fn: fn, Instr: in, ID: id, Kind: k, Fresh: fresh, What: what})
 		return true
 	}
@@ -454,4 +473,30 @@ func CheckSingleSection(p *Prog, e *LockEngine, r *Report, rule string, specs []
 			}
 		}
 	}
+}
+
+// prePublication: the instruction cannot execute after a `go` statement of
+// the same function (so an object allocated here is not yet shared with a
+// goroutine started here).
+func prePublication(in ssa.Instruction) bool {
+	fn := in.Parent()
+	for _, b := range fn.Blocks {
+		for i, g := range b.Instrs {
+			if _, ok := g.(*ssa.Go); !ok {
+				continue
+			}
+			if b == in.Block() {
+				if instrIndex(in) > i {
+					return false
+				}
+				// same block, earlier: reachable again only through a cycle
+			}
+			for _, s := range b.Succs {
+				if reachableFrom(s, nil)[in.Block()] {
+					return false
+				}
+			}
+		}
+	}
+	return true
 }
